@@ -34,6 +34,15 @@ def first_error(text):
     return msg[:80]
 
 
+def program_output(res):
+    """Standard output of the program proper.  The interpreter lists its call stack on stdout when a program
+    halts: a diagnostic, not program output."""
+    out = res["out"]
+    if res["phase"] == "interp" and res["rc"] != 0:
+        out = re.sub(r"^(#\d+ \S+ in <[^>]*> at unit \[[^\]]*\]|\.\.\.)\n", "", out, flags=re.M)
+    return out
+
+
 def classify(res, exp):
     """Compare one run with the specification's behaviour. Returns None if it conforms, else (kind, signature)."""
     out, err = res["out"], res["err"]
@@ -58,10 +67,7 @@ def classify(res, exp):
     if res["phase"] == "javac":
         m = re.search(r"error: (.*)", both)
         return ("javac-fail", (m.group(1) if m else both.strip().split("\n")[0])[:80])
-    # the interpreter lists its call stack on stdout when a program halts: a diagnostic, not program output
-    got_out = out
-    if res["phase"] == "interp" and not got_ok:
-        got_out = re.sub(r"^(#\d+ \S+ in <[^>]*> at unit \[[^\]]*\]|\.\.\.)\n", "", out, flags=re.M)
+    got_out = program_output(res)
     if got_out != exp["out"]:
         return ("wrong-output", "")
     if want_ok != got_ok:
